@@ -349,3 +349,20 @@ CORPUS.setdefault("C06", []).append(("rename-locals-make-step", "silent", [
     (KN, "            if p_error <= self.tol:", "            if perr <= self.tol:"),
     (KN, "step * (self.tol / (2 * p_error)) ** (1 / (len(bb) - 1))", "step * (self.tol / (2 * perr)) ** (1 / (len(bb) - 1))"),
 ], None))
+
+# ---- rules added from mutation testing of the checks and from the third seeded wave (SIG / PIN / MEMO / B13 / D4 / R08.1)
+IAU80 = "beyond/frames/iau1980.py"
+M("C02", "nutation-default-terms", IAU80, "def nutation(date, eop_correction=True, terms=106):", "def nutation(date, eop_correction=True, terms=4):", "SIG")
+M("C06", "default-tolerance", KN, "method=RK4, frame=FRAME, tol=1e-3):", "method=RK4, frame=FRAME, tol=1e-1):", "SIG")
+R("C06", "default-tolerance-respelt", KN, "method=RK4, frame=FRAME, tol=1e-3):", "method=RK4, frame=FRAME, tol=0.001):")
+M("C10", "mask-gate-threshold", LIS, "        if orb2.phi <= 0:\n            return False\n        else:\n            return super().check(orb)", "        if orb2.phi <= 0.1:\n            return False\n        else:\n            return super().check(orb)", "PIN")
+M("C12", "year-pivot", TLE, "            year += 1900 if year >= 57 else 2000  # This condition works until 2057", "            year += 1900 if year >= 75 else 2000", "PIN")
+M("C16", "helper-orientation-product", HELPER, "dv = (self._mat3 @ [0, -1, 0]) * tangential", "dv = ([0, -1, 0] @ self._mat3) * tangential", "PIN")
+M("C08", "stop-on-boundary-refused", EPH, "                if stop > self.stop:", "                if stop >= self.stop:", "R08.1")
+CORPUS.setdefault("C02", []).append(("orientation-matrix-cache", "fire", [
+    (ORIENT, "        m = np.identity(6)\n", "        key = (self.name, new_orient, date)\n        if key in self._mcache:\n            return self._mcache[key]\n        m = np.identity(6)\n"),
+    (ORIENT, "            m = M @ m\n\n        return m", "            m = M @ m\n\n        self._mcache[key] = m\n        return m")], "MEMO"))
+M("C06", "orbit-kept-by-reference", KN, "        self._orbit = orbit.copy(form=\"cartesian\", frame=self.frame)", "        if str(orbit.form) == \"cartesian\":\n            self._orbit = orbit\n        else:\n            self._orbit = orbit.copy(form=\"cartesian\", frame=self.frame)", "D4")
+M("C13", "continuous-written-by-anchor-date", OPM, "                date = man.start\n                duration = man.duration.total_seconds()\n            else:\n                date = man.date\n                duration = 0\n\n            # All dates of the message are expressed in its TIME_SYSTEM\n            date = date.change_scale(data.date.scale.name)\n\n            text +=",
+  "                date = man.date\n                duration = man.duration.total_seconds()\n            else:\n                date = man.date\n                duration = 0\n\n            # All dates of the message are expressed in its TIME_SYSTEM\n            date = date.change_scale(data.date.scale.name)\n\n            text +=", "B13")
+M("C19", "stumpff-hyperbolic", LAM, "np.cosh(np.sqrt(-z)) - 1", "np.cosh(np.sqrt(-z)) + 1", "PIN")
